@@ -37,6 +37,10 @@ fn main() {
                 let hay: String = cps(f[5]).into_iter().map(|c| char::from_u32(c).unwrap()).collect();
                 regress::verif_top::find_from_json2(&cps(f[3]), f[1], f[2] == "1", &hay, f[4].parse().unwrap(), true)
             }
+            "iterc" => {
+                let hay: String = cps(f[5]).into_iter().map(|c| char::from_u32(c).unwrap()).collect();
+                regress::verif_top::iter_consistency_json(&cps(f[3]), f[1], f[2] == "1", &hay, f[4].parse().unwrap(), f[6])
+            }
             _ => "{\"ok\": false, \"err\": \"bad request\"}".to_string(),
         };
         writeln!(out, "{}", res).unwrap();
